@@ -25,7 +25,7 @@ def work(task):
     tree, scheme, ivar, k, decl, send, oracle_names = task
     spec = make_spec(task)
     res = engine.explore(spec, k, [ORACLES[o] for o in oracle_names],
-                         builder=decl if decl in ('rebuilt', 'moved') else 'api', observe=decl == 'observed')
+                         builder=decl if decl in ('rebuilt', 'moved') else 'api', observe=decl == 'observed', bystander=decl == 'bystander')
     res['desc'] = describe(spec)
     res['task'] = task
     return res
@@ -105,7 +105,7 @@ def replay(data):
     from . import probes
     task = _tupled(data['task'])
     spec = make_spec(task)
-    R = engine.Runner(spec, task[4] if task[4] in ('rebuilt', 'moved') else 'api', observe=task[4] == 'observed')
+    R = engine.Runner(spec, task[4] if task[4] in ('rebuilt', 'moved') else 'api', observe=task[4] == 'observed', bystander=task[4] == 'bystander')
     hist = tuple(_tupled(o) for o in (data['hist'] or []))
     print('chart    :', describe(spec))
     for t in spec['transitions']:
